@@ -147,7 +147,7 @@ def judge_explicit(ctx, tag, sigp, req, orders, order_arg, rtol, tables, covs, r
                      f"(frequency/damping/shape/covariances come from different cells or another order)")
             ok = False
             continue
-        if abs(abs(Fn[k] - f) - dmin) > 1e-12 * max(f, 1):
+        if not (abs(abs(Fn[k] - f) - dmin) <= 1e-12 * max(f, 1)):
             ctx.fail(f"{sigp}:not_nearest", f"{tag}: mode {k}: returned pole at distance {abs(Fn[k]-f):.5g} from the request {f:.5g}, nearest retained pole of order {o} is at {dmin:.5g}")
             ok = False
     if covs is not None:
